@@ -128,7 +128,7 @@ func spellings(a atom) []string {
 }
 
 func checkC16(w *World, r *Report) {
-	r.Explanation = "Structural clause of C16: (F-1) commonValidation0 rejects a gas price different from the governance gas price (equality, both directions) and a fee gas x price below the governance minimum fee, the contract validation rejects gas below the intrinsic gas of the payload, each guard lying on every path to a success return, and the governance handler of every context is the node's governance controller; (F-2) the routing decision table (C04 N-3) shows every natively executed transaction is debited exactly gas-limit x price once and reports GasUsed = gas limit; (F-3) on the EVM route the transaction's gas limit and the governance gas price reach the EVM message unchanged and GasUsed is the execution result's UsedGas; (F-4) deliverTxSync adds GasToFee(GasUsed, governance price) to the block's fee sum only on the success branch, the fee sum starts at zero in a context created afresh in BeginBlock, has a closed set of writers, and AcctCtrler.EndBlock credits exactly SumFee() to the header's proposer address in the consensus overlay. (F-5) the fee of a contract transaction is credited to the proposer once, by EndBlock: the EVM itself pays nothing to the coinbase — every EVM is created with NoBaseFee and every message carries fee cap = tip cap = 0 (constants), the combination under which go-ethereum's state transition skips the coinbase payment. (F-6) what the EVM charges is charged to the account of the executing block: the wrapper synchronises balances in and out through the exec-selected overlay, the flag being set before the first address is synchronised (C17 E-1, E-2). F-1 also requires that what the governance controller answers for GasPrice, MinTrxFee, MinTrxGas and MaxTrxGas is the getter of its embedded current parameter set (promoted, or returned verbatim): never a value kept across calls."
+	r.Explanation = "Structural clause of C16: (F-1) commonValidation0 rejects a gas price different from the governance gas price (equality, both directions) and a fee gas x price below the governance minimum fee, the contract validation rejects gas below the intrinsic gas of the payload, each guard lying on every path to a success return, and the governance handler of every context is the node's governance controller; (F-2) the routing decision table (C04 N-3) shows every natively executed transaction is debited exactly gas-limit x price once and reports GasUsed = gas limit; (F-3) on the EVM route the transaction's gas limit and the governance gas price reach the EVM message unchanged and GasUsed is the execution result's UsedGas; (F-4) deliverTxSync adds GasToFee(GasUsed, governance price) to the block's fee sum only on the success branch, the fee sum starts at zero in a context created afresh in BeginBlock, has a closed set of writers, and AcctCtrler.EndBlock credits exactly SumFee() to the header's proposer address in the consensus overlay. (F-5) the fee of a contract transaction is credited to the proposer once, by EndBlock: the EVM itself pays nothing to the coinbase — every EVM is created with NoBaseFee and every message carries fee cap = tip cap = 0 (constants), the combination under which go-ethereum's state transition skips the coinbase payment. (F-6) what the EVM charges is charged to the account of the executing block: the wrapper synchronises balances in and out through the exec-selected overlay, the flag being set before the first address is synchronised (C17 E-1, E-2). F-1 also requires that what the governance controller answers for GasPrice, MinTrxFee, MinTrxGas and MaxTrxGas is the getter of its embedded current parameter set (promoted, or returned verbatim): never a value kept across calls. (F-9) what the executor routes to the EVM is executed and charged there: the EVM controller never hands such a transaction back (C05 A-4)."
 	r.NotCovered = "UsedGas <= gas limit and gas purchase/refund inside go-ethereum; sums over a block as numbers; blocks without a proposer address."
 	f1(w, r)
 	routingTable(w, r, "F-2")
@@ -146,6 +146,10 @@ func checkC16(w *World, r *Report) {
 	// at the fee step (C04 N-9)
 	codeMarkerStable(w, r, "F-7")
 	r.Floor("F-7", 3, "code marker writers")
+	// F-9: the EVM route charges: what is routed there is executed there (C05 A-4)
+	if r.importObs(w, func(t *Report) { a4(w, t) }, "A-4", "F-9") < 2 {
+		r.Undecided("F-9", "evm-route", "the EVM route rules (C05 A-4) matched fewer than 2 constructs")
+	}
 	r.Floor("F-1", 10, "admission guards")
 	r.Floor("F-2", 18, "decision table rows")
 	r.Floor("F-3", 4, "EVM charge")
